@@ -17,8 +17,9 @@ import (
 // ---- histories of edits (C18 delete/replace, C09 choices) --------------------------------
 
 type histOp struct {
-	Kind string  `json:"kind"` // upsert | delete | replace
+	Kind string  `json:"kind"` // upsert | delete | replace | delete2 (two entries of one list, both selected before either is deleted)
 	Path dm.Path `json:"path,omitempty"`
+	Path2 dm.Path `json:"path2,omitempty"`
 	Src  dm.Tree `json:"src,omitempty"` // upsert: root content; replace: content of the addressed node
 }
 
@@ -37,6 +38,8 @@ func applyModel(root *dm.Node, t dm.Tree, op histOp) bool {
 		return dm.MergeContent(root, t, op.Src, dm.Upsert, false, "") == nil
 	case "delete":
 		return dm.DeleteAt(root, t, op.Path)
+	case "delete2":
+		return dm.DeleteAt(root, t, op.Path) && dm.DeleteAt(root, t, op.Path2)
 	case "replace":
 		pn, pt, ok := dm.ParentOf(root, t, op.Path)
 		if !ok {
@@ -86,6 +89,19 @@ func applyLib(mm *meta.Module, root *dm.Node, store dm.Store, model dm.Tree, op 
 			return fmt.Errorf("harness: Find(%s) returned no selection for a node the model holds", findPath(op.Path))
 		}
 		return t.Delete()
+	case "delete2":
+		a, err := sel.Find(findPath(op.Path))
+		if err != nil || a == nil {
+			return fmt.Errorf("harness: Find(%s): %v", findPath(op.Path), err)
+		}
+		b, err := sel.Find(findPath(op.Path2))
+		if err != nil || b == nil {
+			return fmt.Errorf("harness: Find(%s): %v", findPath(op.Path2), err)
+		}
+		if err := a.Delete(); err != nil {
+			return err
+		}
+		return b.Delete()
 	case "replace":
 		t, err := sel.Find(findPath(op.Path))
 		if err != nil {
@@ -173,7 +189,7 @@ func histRun(prop string) func(c histCase, o *hx.Obs) {
 				continue // not applicable any more (shrinking); skip on both sides
 			}
 			o.Class("op=%s", op.Kind)
-			if op.Kind == "delete" {
+			if op.Kind == "delete" || op.Kind == "delete2" {
 				deletes++
 				if len(op.Path) > 1 {
 					nestedDelete = true
@@ -230,7 +246,7 @@ func histRun(prop string) func(c histCase, o *hx.Obs) {
 				return
 			}
 			// navigation agrees: removed node is gone, remaining entries are found under their keys
-			if op.Kind == "delete" {
+			if op.Kind == "delete" || op.Kind == "delete2" {
 				var fs *node.Selection
 				var ferr error
 				if o.Guard("Find(deleted)", func() { fs, ferr = node.NewBrowser(mm, store.Node()).Root().Find(findPath(op.Path)) }) {
@@ -328,6 +344,19 @@ func histGen(prop string, stores []string) func(t *rapid.T) histCase {
 				}
 			case "delete":
 				op.Path = paths[rapid.IntRange(0, len(paths)-1).Draw(t, "path")]
+				if last := op.Path[len(op.Path)-1]; last.Key != nil && rapid.IntRange(0, 2).Draw(t, "two-held") == 0 {
+					// another entry of the same list, selected before the first delete happens
+					var others []dm.Path
+					for _, p := range paths {
+						if len(p) == len(op.Path) && p[len(p)-1].Key != nil && findPath(p[:len(p)-1]) == findPath(op.Path[:len(op.Path)-1]) && p[len(p)-1].Name == last.Name && findPath(p) != findPath(op.Path) {
+							others = append(others, p)
+						}
+					}
+					if len(others) > 0 {
+						op.Kind = "delete2"
+						op.Path2 = others[rapid.IntRange(0, len(others)-1).Draw(t, "other")]
+					}
+				}
 			case "replace":
 				op.Path = paths[rapid.IntRange(0, len(paths)-1).Draw(t, "path")]
 				last := op.Path[len(op.Path)-1]
@@ -395,7 +424,7 @@ func repeatAnEntry(t *rapid.T, n *dm.Node, tr dm.Tree) bool {
 
 var c18Hist = hx.Register(&hx.Check[histCase]{
 	Name: "c18-delete-replace-history",
-	Rule: "histories of 1-8 operations {upsert fragment (one in four names some list key twice), delete container / whole list / list entry (first, middle, last, only), replace container / entry} on reference, map-backed Reflect and Node (map and slice lists) and struct-backed Reflect and Node stores; after every step the store's backing data must equal the model, a deleted entry must not be found, and at the end every entry is found under its key; non-trivial = a delete followed by a further edit, or a delete below the top level",
+	Rule: "histories of 1-8 operations {upsert fragment (one in four names some list key twice), delete container / whole list / list entry (first, middle, last, only; also two entries of one list that were both selected before either is deleted), replace container / entry} on reference, map-backed Reflect and Node (map and slice lists) and struct-backed Reflect and Node stores; after every step the store's backing data must equal the model, a deleted entry must not be found, and at the end every entry is found under its key; non-trivial = a delete followed by a further edit, or a delete below the top level",
 	Gen:  histGen("C18", []string{"rs", "reflect-map", "reflect-slice", "node-map", "node-slice", "reflect-struct", "node-struct"}),
 	Run:  histRun("C18"),
 })
